@@ -7,6 +7,11 @@ import (
 	"capnproto.org/go/capnp/v3/schemas"
 )
 
+// schemaReadLimit is the traversal limit given to schema messages.
+// They come from the registry (compiled-in, trusted data), not from the
+// network, so the amplification-attack limit has no purpose for them.
+const schemaReadLimit = ^uint64(0)
+
 // Map is a lazy index of a registry.
 // The zero value is an index of the default registry.
 type Map struct {
@@ -29,6 +34,11 @@ func (m *Map) UseRegistry(reg *schemas.Registry) {
 // Find returns the node for the given ID.
 func (m *Map) Find(id uint64) (schema.Node, error) {
 	if n := m.nodes[id]; n.IsValid() {
+		// The node lives in a schema message that stays cached for the
+		// lifetime of the Map.  Every read of a cached node is charged
+		// against that message's traversal limit, so without a reset a
+		// long-lived Map eventually fails to read its own schema.
+		n.Struct.Segment().Message().ResetReadLimit(schemaReadLimit)
 		return n, nil
 	}
 	data, err := m.registry().Find(id)
@@ -39,6 +49,7 @@ func (m *Map) Find(id uint64) (schema.Node, error) {
 	if err != nil {
 		return schema.Node{}, err
 	}
+	msg.ResetReadLimit(schemaReadLimit)
 	req, err := schema.ReadRootCodeGeneratorRequest(msg)
 	if err != nil {
 		return schema.Node{}, err
